@@ -12,10 +12,10 @@ PROPS = {
     "C02": dict(groups=["utcnew"], families=["utcnew", "utccmp"], level="proof", errkind_matters=True, theorems=["TzVerif.C02." + t for t in ['days_correct', 'new_correct', 'new_accepts_iff', 'unix_time_correct', 'leap_second', 'roundtrip_fields', 'roundtrip_time', 'monotone']]),
     "C03": dict(groups=["zonelookup"], families=["zone", "lookup", "dtfrom"], level="proof", errkind_matters=True, theorems=["TzVerif.C03." + t for t in ['binary_search_correct', 'table_lookup', 'no_transitions', 'conversion_error', 'local_date_time']]),
     "C04": dict(groups=["rulelookup"], families=["zone", "lookup"], level="proof", errkind_matters=False, theorems=["TzVerif.C04." + t for t in ["day_notations","accepted_shape","evaluated_correctly_partial","changes_only_at_instants","year_guard","refusal_is_out_of_range","counterexample"]]),
-    "C05": dict(groups=["find", "leap"], families=["zone", "find"], level="exploration", errkind_matters=False, theorems=[]),
-    "C06": dict(groups=["find"], families=["zone", "find"], level="exploration", errkind_matters=False, theorems=[]),
+    "C05": dict(groups=["find", "leap"], families=["zone", "find"], level="proof", errkind_matters=False, theorems=["TzVerif.C05." + t for t in ['results_show_the_local_time_partial', 'no_instant_missing_partial', 'no_duplicates_partial', 'counterexample_F2']]),
+    "C06": dict(groups=["find"], families=["zone", "find"], level="proof", errkind_matters=False, theorems=["TzVerif.C06." + t for t in ['reported_gaps_are_real_partial', 'every_gap_reported_partial', 'gaps_reported_once_partial', 'ascending_partial', 'unique_iff', 'earliest_is_first', 'latest_is_last']]),
     "C07": dict(groups=["hostile"], families=["tzif", "tzfooter"], level="exploration", errkind_matters=False, theorems=[], special="c07", flavour="dev"),
-    "C08": dict(groups=["tzifgen", "tzifiana"], families=["tzif", "tzifgen", "tzifbad"], level="exploration", errkind_matters=False, theorems=[]),
+    "C08": dict(groups=["tzifgen", "tzifiana"], families=["tzif", "tzifgen", "tzifbad"], level="proof", errkind_matters=False, theorems=["TzVerif.C08." + t for t in ['big_endian_roundtrip', 'decode_encode_v1', 'decode_encode_v2_v3', 'bad_magic', 'bad_version', 'inconsistent_counts', 'truncated_block', 'truncated_v1', 'trailing_bytes_v1', 'type_record', 'indicator_pairs', 'accepted_files_are_well_formed', 'legacy_counterexample']]),
     "C09": dict(groups=["tzstr"], families=["tzfooter"], level="exploration", errkind_matters=False, theorems=[]),
     "C10": dict(groups=["iana"], families=["tzif", "zone", "lookup", "find"], level="other", errkind_matters=False, theorems=[], special="c10"),
     "C11": dict(groups=["rulenew", "rulepairs"], families=["rulenew"], level="exploration", errkind_matters=True, theorems=[], exhaustive=True),
